@@ -294,3 +294,74 @@ Proof.
     + injection E as <-. discriminate.
     + injection E as ->. exact Hn.
 Qed.
+
+(** * Statements of C10 about counts *)
+
+Lemma counted_once_is_abs_plus_one old : new_commits old 1 = Z.abs old + 1.
+Proof. reflexivity. Qed.
+
+Lemma touched_keeps_count old : new_commits old 0 = old.
+Proof. reflexivity. Qed.
+
+Lemma commit_counts_exactly d tick calls :
+  let ws := fst (calls_writes d tick calls) in
+  let tick' := snd (calls_writes d tick calls) in
+  (forall calls1 e c calls2 k,
+     calls = calls1 ++ (e, c) :: calls2 -> entry_key e = Some k ->
+     (forall ec, In ec calls2 -> entry_key (fst ec) <> Some k) ->
+     exists t, get (apply_batch ws d) k = Some (VEnt (new_commits (old_commits (get d k)) c) t) /\
+               (tick <= t <= tick')%N) /\
+  (forall k, (forall ec, In ec calls -> entry_key (fst ec) <> Some k) -> k <> tick_key ->
+     get (apply_batch ws d) k = get d k) /\
+  tick' = (tick + N.of_nat (n_counted calls))%N.
+Proof.
+  intros ws tick'. subst ws tick'. split; [|split].
+  - intros calls1 e c calls2 k -> Hk Hno. now apply last_call_wins.
+  - intros k Hno Hkt. now apply untouched_keys_kept.
+  - apply calls_tick.
+Qed.
+
+Lemma table_calls_all_counted ce ec : In ec (memorize_calls KTable ce) -> snd ec = 1.
+Proof.
+  unfold memorize_calls. intro H. apply in_map_iff in H. destruct H as (x & <- & _). reflexivity.
+Qed.
+
+(** k partial selections closed by a confirming one are saved as one entry under
+    the concatenated code, counted once; its elements are only touched *)
+Lemma partials_one_entry partials final :
+  Forall (fun sg => sg_rec sg = true /\ sg_conf sg = false) partials ->
+  sg_rec final = true -> sg_conf final = true ->
+  let T := concat (map (fun sg => de_text (sg_entry sg)) (partials ++ [final])) in
+  let C := concat (map (fun sg => de_code (sg_entry sg)) (partials ++ [final])) in
+  T <> [] ->
+  exists pre, commit_calls KScript (partials ++ [final]) ce_empty = pre ++ [(mkde T [] C, 1)] /\
+              forall ec, In ec pre -> snd ec = 0.
+Proof.
+  intros HF Hr Hc T C HT.
+  rewrite (commit_calls_partials KScript partials ce_empty final HF Hr Hc).
+  pose proof (fold_ce_text (partials ++ [final]) ce_empty) as ET.
+  pose proof (fold_ce_code (partials ++ [final]) ce_empty) as EC.
+  cbn [ce_empty ce_text ce_code app] in ET, EC. fold T in ET. fold C in EC.
+  destruct (memorize_script_last (fold_ce ce_empty (partials ++ [final]))) as (pre & E & Hpre).
+  destruct (ce_text (fold_ce ce_empty (partials ++ [final]))) eqn:Et.
+  - exfalso. apply HT. now rewrite <- ET.
+  - exists pre. split; [|exact Hpre]. rewrite E. unfold ce_entry. now rewrite Et, ET, EC.
+Qed.
+
+Lemma delete_marks_and_hides d tick e k :
+  entry_key e = Some k ->
+  let c' := Z.min (-1) (- old_commits (get d k)) in
+  upd_writes d tick e (-1) = ([WPut k (VEnt c' tick)], tick) /\
+  c' < 0 /\ (0 <= old_commits (get d k) -> c' = - Z.max 1 (old_commits (get d k))) /\
+  visible (VEnt c' tick) = false.
+Proof.
+  intros Hk c'. split; [now apply delete_writes|]. split; [subst c'; lia|]. split; [subst c'; lia|].
+  apply deleted_hidden.
+Qed.
+
+Lemma recommit_revives old t :
+  let del := Z.min (-1) (- old) in
+  new_commits del 1 = Z.abs del + 1 /\ 0 < new_commits del 1 /\ visible (VEnt (new_commits del 1) t) = true.
+Proof.
+  intro del. split; [reflexivity|]. split; [unfold new_commits; cbn; lia|]. now apply counted_visible.
+Qed.
